@@ -407,7 +407,7 @@ func c05write(h *sam.Header, recs []*sam.Record, level, wc int, flush []int) (fi
 
 func c05read(file []byte, rd, omit int) map[string]interface{} {
 	out := map[string]interface{}{"rd": rd, "omit": omit}
-	br, err := bam.NewReader(bytes.NewReader(file), rd)
+	br, err := bam.NewReader(sourceFor(file), rd)
 	if err != nil {
 		out["open_err"] = err.Error()
 		return out
